@@ -380,7 +380,14 @@ _c("C13",
    "A NAME and re-used by several declarations (alone and as an operand of |, Optional, Union, list[..], Array[..], AnyOf[..], "
    "Tuple, Map; harness/c13_alias.py: a lattice of alias forms x uses plus random modules) are executed step by step: every class is "
    "compared with the class of the module in which the expression is written out at every use, right after its own definition and "
-   "again after every later declaration (decided on the implementation: the model has values, not shared objects).",
+   "again after every later declaration (decided on the implementation: the model has values, not shared objects); the same "
+   "machinery runs FACTORY modules (a class defined inside a function called with different bindings of its parameter, with and "
+   "without the __future__ import: identical annotation texts evaluated in different frames). The parameterless function declared "
+   "`-> Field` (is_function_returning_field; where its return type is read from is generated: Gen/AnnotGuards.v func_return_rule, "
+   "pinned by C13_src_rules) is a spelling of the instance it returns as an annotation, as a class attribute and at any argument "
+   "position of Cls[...] (C13_func_annot/_assign/_sub, C13_func_recognised; C13_func_unrecognised characterises a recogniser that "
+   "reads the raw annotation); it is generated in all these positions with a plain and a quoted return annotation, in modules with "
+   "and without the __future__ import (random + a position lattice).",
    "Trusted: Coq kernel + vm_compute; Spelling.v hand-written; extractors harness/genmods/type_mapping.py and annot_guards.py (fail "
    "closed: unrecognised shape -> C13_src_rules does not build); typing's own Union flattening/de-duplication and its "
    "argument cache are CPython's (Unions typing de-duplicates, and argument Unions in a non-canonical member order, are not "
